@@ -266,12 +266,11 @@ func appliedEvents(cau chain.ApplyUpdate, walletAddress types.Address) (events [
 		fce := fced.V2FileContractElement.Move()
 
 		_, missed := fced.Resolution.(*types.V2FileContractExpiration)
-		if fce.V2FileContract.HostOutput.Address == walletAddress {
+		// the payouts are attributed by the address of the created output: a
+		// renewal's final outputs need not go to the addresses named in the
+		// contract
+		if sce, ok := siacoinElements[fce.ID.V2HostOutputID()]; ok && sce.SiacoinOutput.Address == walletAddress {
 			outputID := fce.ID.V2HostOutputID()
-			sce, ok := siacoinElements[outputID]
-			if !ok {
-				panic("missing siacoin element")
-			}
 
 			addEvent(types.Hash256(outputID), EventTypeV2ContractResolution, EventV2ContractResolution{
 				Resolution: types.V2FileContractResolution{
@@ -283,12 +282,8 @@ func appliedEvents(cau chain.ApplyUpdate, walletAddress types.Address) (events [
 			}, sce.MaturityHeight)
 		}
 
-		if fce.V2FileContract.RenterOutput.Address == walletAddress {
+		if sce, ok := siacoinElements[fce.ID.V2RenterOutputID()]; ok && sce.SiacoinOutput.Address == walletAddress {
 			outputID := fce.ID.V2RenterOutputID()
-			sce, ok := siacoinElements[outputID]
-			if !ok {
-				panic("missing siacoin element")
-			}
 
 			addEvent(types.Hash256(outputID), EventTypeV2ContractResolution, EventV2ContractResolution{
 				Resolution: types.V2FileContractResolution{
